@@ -27,7 +27,11 @@ CONSTANTS
   BugResubBehind,   \* F9: Resubscribe entries are queued behind pending requests
   BugPubrelDemote,  \* F2: a failed PUBREL write retries from PUBLISH
   BugRetryNoTimeout,\* F6: retransmissions wait without ResponseTimeout
-  BugSubDup         \* F10: subscriptions.applyTo appends duplicates
+  BugSubDup,        \* F10: subscriptions.applyTo appends duplicates
+  Handlers,         \* C17: handler identities the application registers in turn (sequence; << >> = none)
+  MaxInbound,       \* C17: number of inbound messages the broker sends
+  BugHandleAfterConnect,  \* C17 non-vacuity: the handler is attached only after Connect returned
+  BugHandleNotForwarded   \* C17 non-vacuity: Handle does not reach the current base client
 
 N == Len(Workload)
 Req == 1..N
@@ -60,13 +64,18 @@ VARIABLES
   doneReq,       \* requests whose final acknowledgement was observed by the client
   lost,          \* accepted requests dropped by the client
   viol,          \* names of violated wire rules
-  lastw          \* last packet written (for binding to recorded traces)
+  lastw,         \* last packet written (for binding to recorded traces)
+  hreg,          \* C17: number of Handle calls made; the handler RetryClient.handler holds is Handlers[hreg] (0: nil)
+  bh,            \* C17: [Gen -> 0..Len(Handlers)] handler installed on base client g
+  inb,           \* C17: number of inbound messages sent so far
+  hviol          \* C17: an inbound message reached a handler other than the one registered last (or none)
 
 vars == <<submitted, taskQ, tok, retryQ, subEst, nrbe, tg, gen, connErr, bc, rl, faults, dialled,
-          bsubs, binfl, bever, dcnt, txc, txok, relok, lastPub, firstMax, doneReq, lost, viol, lastw>>
+          bsubs, binfl, bever, dcnt, txc, txok, relok, lastPub, firstMax, doneReq, lost, viol, lastw, hreg, bh, inb, hviol>>
+hvars == <<hreg, bh, inb, hviol>>
 cvars == <<submitted, taskQ, tok, retryQ, subEst, nrbe, tg, gen, connErr, bc, rl, faults, dialled>>
 bvars == <<bsubs, binfl, bever, dcnt>>
-ovars == <<txc, txok, relok, lastPub, firstMax, doneReq, lost, viol, lastw>>
+ovars == <<txc, txok, relok, lastPub, firstMax, doneReq, lost, viol, lastw, hreg, bh, inb, hviol>>
 
 \* ---------- helpers ----------
 IsPub(i) == Workload[i].k = "pub"
@@ -122,6 +131,7 @@ Init ==
   /\ bsubs = EmptyFn /\ binfl = {} /\ bever = FALSE /\ dcnt = [r \in Req |-> 0]
   /\ txc = [r \in Req |-> 0] /\ txok = {} /\ relok = {} /\ lastPub = [g \in Gen |-> 0] /\ firstMax = 0
   /\ doneReq = {} /\ lost = {} /\ viol = {} /\ lastw = [p |-> "none"]
+  /\ hreg = 0 /\ bh = [g \in Gen |-> 0] /\ inb = 0 /\ hviol = FALSE
 
 \* ---------- application: RetryClient.Publish / Subscribe / Unsubscribe -> pushTask (retryclient.go:377) ----------
 Submit ==
@@ -160,8 +170,10 @@ RLConnectInit ==
   /\ rl.pc = "connect"
   /\ bc' = [bc EXCEPT ![rl.g].sig = TRUE, ![rl.g].connecting = TRUE]
   /\ rl' = [rl EXCEPT !.pc = "connack"]
+  \* RetryClient.Connect (retryclient.go): cli.Handle(c.handler) under c.mu, before BaseClient.Connect
+  /\ bh' = IF BugHandleAfterConnect THEN bh ELSE [bh EXCEPT ![rl.g] = hreg]
   /\ UNCHANGED <<submitted, taskQ, tok, retryQ, subEst, nrbe, tg, gen, connErr, faults, dialled>>
-  /\ UNCHANGED bvars /\ UNCHANGED ovars
+  /\ UNCHANGED bvars /\ UNCHANGED <<txc, txok, relok, lastPub, firstMax, doneReq, lost, viol, lastw, hreg, inb, hviol>>
 
 \* CONNECT written, broker accepts with session present = sp; RetryClient.Connect closes chConnectErr
 RLConnectOk(sp) ==
@@ -176,6 +188,8 @@ RLConnectOk(sp) ==
   /\ lastw' = [p |-> "CONNECT", g |-> rl.g, r |-> 0, dup |-> FALSE, ok |-> TRUE]
   /\ UNCHANGED <<submitted, taskQ, tok, retryQ, subEst, nrbe, tg, gen, faults, dialled, dcnt>>
   /\ UNCHANGED <<txc, txok, relok, lastPub, firstMax, doneReq, lost, viol>>
+  /\ bh' = IF BugHandleAfterConnect THEN [bh EXCEPT ![rl.g] = hreg] ELSE bh
+  /\ UNCHANGED <<hreg, inb, hviol>>
 
 \* Connect fails (refused or absent CONNACK, cut): error sent on chConnectErr, channel closed;
 \* the loop closes the client and waits for Done (reconnclient.go:140-148)
@@ -187,7 +201,7 @@ RLConnectFail ==
   /\ rl' = [rl EXCEPT !.pc = "dial"]
   /\ lastw' = [p |-> "CONNECT", g |-> rl.g, r |-> 0, dup |-> FALSE, ok |-> FALSE]
   /\ UNCHANGED <<submitted, taskQ, tok, retryQ, subEst, nrbe, tg, gen, dialled>>
-  /\ UNCHANGED bvars /\ UNCHANGED <<txc, txok, relok, lastPub, firstMax, doneReq, lost, viol>>
+  /\ UNCHANGED bvars /\ UNCHANGED <<txc, txok, relok, lastPub, firstMax, doneReq, lost, viol>> /\ UNCHANGED hvars
 
 \* the broker accepted the CONNECT (its session state is updated) but the CONNACK was lost with the
 \* connection: for the client this is a failed Connect
@@ -203,7 +217,7 @@ RLConnectLost(sp) ==
   /\ rl' = [rl EXCEPT !.pc = "dial"]
   /\ lastw' = [p |-> "CONNECT", g |-> rl.g, r |-> 0, dup |-> FALSE, ok |-> TRUE]
   /\ UNCHANGED <<submitted, taskQ, tok, retryQ, subEst, nrbe, tg, gen, dialled, dcnt>>
-  /\ UNCHANGED <<txc, txok, relok, lastPub, firstMax, doneReq, lost, viol>>
+  /\ UNCHANGED <<txc, txok, relok, lastPub, firstMax, doneReq, lost, viol>> /\ UNCHANGED hvars
 
 \* after a successful Connect: Resubscribe (if due), Retry (reconnclient.go:103-107)
 RLPost ==
@@ -443,7 +457,7 @@ TGBegin ==
         ELSE /\ tg' = [tg EXCEPT !.st = IF cur.e = "raw" /\ cur.stage = "rel" THEN "rel" ELSE "pub"]
              /\ UNCHANGED <<retryQ, nrbe, doneReq, lost>>
   /\ UNCHANGED <<submitted, taskQ, tok, gen, connErr, bc, rl, faults, dialled>>
-  /\ UNCHANGED bvars /\ UNCHANGED <<txc, txok, relok, lastPub, firstMax, viol, lastw>>
+  /\ UNCHANGED bvars /\ UNCHANGED <<txc, txok, relok, lastPub, firstMax, viol, lastw>> /\ UNCHANGED hvars
 
 \* is the wait of the current exchange bounded by ResponseTimeout?
 Armed == RespTimeout /\ ~(BugRetryNoTimeout /\ tg.task.t = "retry" /\ tg.cur.e \in {"raw", "rawresub"})
@@ -496,7 +510,7 @@ TGWrite(o) ==
           /\ BrokerProcess(cur, st)
           /\ tg' = [tg EXCEPT !.st = IF st = "rel" THEN "waitrel" ELSE "waitpub"]
           /\ UNCHANGED <<retryQ, nrbe, doneReq, lost, bc>>
-  /\ UNCHANGED <<submitted, taskQ, tok, subEst, gen, connErr, rl, dialled>>
+  /\ UNCHANGED <<submitted, taskQ, tok, subEst, gen, connErr, rl, dialled>> /\ UNCHANGED hvars
 
 \* waiting for an acknowledgement that will not come: woken by Done() ...
 TGWaitClosed ==
@@ -504,7 +518,7 @@ TGWaitClosed ==
   /\ bc[tg.cli].done
   /\ Finish("retry", StageName(tg.cur, tg.st))
   /\ UNCHANGED <<submitted, taskQ, tok, subEst, gen, connErr, bc, rl, faults, dialled>>
-  /\ UNCHANGED bvars /\ UNCHANGED <<txc, txok, relok, lastPub, firstMax, viol, lastw>>
+  /\ UNCHANGED bvars /\ UNCHANGED <<txc, txok, relok, lastPub, firstMax, viol, lastw>> /\ UNCHANGED hvars
 
 \* ... or by the ResponseTimeout context (retryclient.go:364-370), where it is applied
 TGTimeout ==
@@ -512,7 +526,28 @@ TGTimeout ==
   /\ bc[tg.cli].topen /\ Armed
   /\ Finish("retry", StageName(tg.cur, tg.st))
   /\ UNCHANGED <<submitted, taskQ, tok, subEst, gen, connErr, bc, rl, faults, dialled>>
-  /\ UNCHANGED bvars /\ UNCHANGED <<txc, txok, relok, lastPub, firstMax, viol, lastw>>
+  /\ UNCHANGED bvars /\ UNCHANGED <<txc, txok, relok, lastPub, firstMax, viol, lastw>> /\ UNCHANGED hvars
+
+\* ---------- C17: handler registration and inbound messages ----------
+\* RetryClient.Handle (retryclient.go:92-99), under c.mu: remember the handler and forward it to the current client
+HandleCall ==
+  /\ hreg < Len(Handlers)
+  /\ hreg' = hreg + 1
+  /\ bh' = IF gen > 0 /\ ~BugHandleNotForwarded THEN [bh EXCEPT ![gen] = hreg + 1] ELSE bh
+  /\ UNCHANGED <<inb, hviol>>
+  /\ UNCHANGED cvars /\ UNCHANGED bvars /\ UNCHANGED <<txc, txok, relok, lastPub, firstMax, doneReq, lost, viol, lastw>>
+\* the broker sends an application message on an established connection (any time after the CONNACK, also
+\* directly behind it); the reader hands it to the handler installed on that base client
+Inbound(g) ==
+  /\ inb < MaxInbound
+  /\ bc[g].topen /\ bc[g].sig /\ ~bc[g].done
+  /\ (connErr[g] = "closed" \/ (rl.g = g /\ rl.pc = "connack"))      \* CONNACK has been sent (Connect may not have returned yet)
+  /\ g = gen
+  /\ inb' = inb + 1
+  \* the statement: the handler registered last receives it (Handle is atomic under c.mu in this model)
+  /\ hviol' = (hviol \/ (hreg > 0 /\ bh[g] # hreg))
+  /\ UNCHANGED <<hreg, bh>>
+  /\ UNCHANGED cvars /\ UNCHANGED bvars /\ UNCHANGED <<txc, txok, relok, lastPub, firstMax, doneReq, lost, viol, lastw>>
 
 Outcomes == {"ok", "closed", "cutBefore", "cutAfter", "dropReq", "dropAck"}
 
@@ -523,6 +558,7 @@ Next ==
   \/ (\E g \in Gen : PeerClose(g) \/ ServeExit(g))
   \/ TGWait \/ TGTop \/ TGIdle \/ TGAfter \/ TGRunStart \/ TGRetryNext \/ TGResubNext \/ TGBegin
   \/ (\E o \in Outcomes : TGWrite(o)) \/ TGWaitClosed \/ TGTimeout
+  \/ HandleCall \/ (\E g \in Gen : Inbound(g))
 
 \* fairness: everything the client, the loop and the reader do; the environment's faults are not fair
 ClientNext ==
@@ -553,6 +589,8 @@ DeliveredOnce == Stable => \A r \in Req : (IsPub(r) /\ Qos(r) = 2) => dcnt[r] = 
 StableSubs == Stable => bsubs = NetSubs(N)
 \* C18: every wait on an open connection is bounded when ResponseTimeout is configured
 WaitArmed == (RespTimeout /\ tg.pc = "run" /\ tg.st \in {"waitpub", "waitrel"}) => Armed
+\* C17: every inbound message reaches the handler registered last, on every connection
+HandlerFollows == ~hviol
 \* liveness (C01, C18): with finitely many faults the client becomes and stays stable
 EventuallyStable == <>[]Stable
 
